@@ -116,3 +116,12 @@ package risor
 //@ assume[recv.nonnil] cfg != nil
 //@ callpre[C12.opts.os.nonnil] WithOS: arg0 != nil
 //@ callpre[C12.opts.importer.nonnil] WithImporter: arg0 != nil
+
+// ---- C03: risor.Call reports a name that is declared but unassigned as an error -------------------------------------
+// vm.Get answers (nil, nil) for a global slot that was never assigned; the "not a function" branch must not call a
+// method on that nil object (KF-50 fixed: it panicked in the host, outside the VM's recover). Only the explicit
+// obligations at the method calls on the looked-up object are kept.
+//@ func Call
+//@ props C03
+//@ trusted callpre
+//@ callpre[C03.call.obj.nonnil] Type: recv != nil
